@@ -181,7 +181,7 @@ def runApp (c : Case) : Res :=
           -- a rejection must have one of the reasons C04 lists (the split-validation heuristic is F-04d)
           let os := if os.isEmpty && x.outcome == "err" && !nearThreshold ds && (x.msg.splitOn "global split").length ≤ 1 then
                       rejectOracle dflt (initOf s) txs x.deltas x.msg else os
-          if nearThreshold ds then ({ sec := s, diff := none, oracles := [], ds := ds, fail := fail } : SecCmp)
+          if nearThreshold ds || noiseBuyer txs ds x.deltas then ({ sec := s, diff := none, oracles := [], ds := ds, fail := fail } : SecCmp)
           else if modelOutcome ≠ x.outcome then
             { sec := s, diff := some ("dk=outcome", s!"security {s}: outcome model={modelOutcome}({match fail with | some f => failureName f | none => ""}) impl={x.outcome} {x.msg}"), oracles := os, ds := ds, fail := fail }
           else if modelOutcome == "err" && ds.length ≠ x.deltas.length then
